@@ -85,7 +85,7 @@ func gen(c *hmain.Ctx) {
 func main() {
 	pipedrv.UseProductionNodePool()
 	hmain.Run(&hmain.Prop{ID: "C04",
-		Rule: "pipeline cases as in C02 plus the family 'discard-before-hold' (an action in front of the holding one discards the event that follows a run, then silence) and directed schedules (heartbeat held before tryUnblock while the stream is unblocked and drained). Threshold-crossing families: capacity-1, slow-flush (flush >= 100 ms), hold-slow (event time-out > 200 ms), recycle (feeder op 6: pads up to 64 KiB / > 64 JSON nodes; op 'g' grows Buf; 4th case element = (avgEventSize retentionMs multiplierPercent maintenanceMs)), split-fan (0-14 children with their own ops), retry-backoff, maintenance; directed expand-procs / stale-unblock-slow. Pool cases: streams size-classes (op 8: goroutine size up to 2^32-1) and recycle (op 9; gate-list option (1 avg)). Coverage families (notes/coverage): in-variety (ext's 6th element = ((key value) ...) options of pipedrv.xopts: decoder raw / cri / auto / suggested, MaxEventSize drop / cut-off, antispam threshold, meta data, source-name meta field, saved stream offsets; empty records, non-CRI lines), match-variety (match modes or / and_prefix / or_prefix / do_if / invert, metric options), file-commit (InputPlugin.Commit handed to the real file-input jobProvider.commit: labels 118 / 119), early-stop (Pipeline.Stop with events in flight, random and directed stop-while-held; feeder op 7 asks for the stop; labels 116 / 120), batch-bytes (BatchSizeBytes). spread / spread-split / spread-create (kafka-like input: UseSpread + DisableStreams). Every case is non-trivial; distinct = distinct case text.",
+		Rule: "pipeline cases as in C02 plus the family 'discard-before-hold' (an action in front of the holding one discards the event that follows a run, then silence) and directed schedules (heartbeat held before tryUnblock while the stream is unblocked and drained). Threshold-crossing families: capacity-1, slow-flush (flush >= 100 ms), hold-slow (event time-out > 200 ms), recycle (feeder op 6: pads up to 64 KiB / > 64 JSON nodes; op 'g' grows Buf; 4th case element = (avgEventSize retentionMs multiplierPercent maintenanceMs)), split-fan (0-14 children with their own ops), retry-backoff, maintenance; directed expand-procs / stale-unblock-slow. Pool cases: streams size-classes (op 8: goroutine size up to 2^32-1) and recycle (op 9; gate-list option (1 avg)). Pool stream heartbeat-lifecycle (pooldrv.HbLifecycle: a controller goroutine takes the pool through back-pressure episodes, idle periods, full-without-waiter periods and lost wake-ups, each longer than the wake-up interval, then the gated lost wake-up; ops 10 wait-for-waiters, 11 release-and-keep-parking, 12 / 13 phase counter; gate-list option (2 tid) parks only that goroutine; record 217 = the heartbeat did not finish its iteration by the end of the case). Coverage families (notes/coverage): in-variety (ext's 6th element = ((key value) ...) options of pipedrv.xopts: decoder raw / cri / auto / suggested, MaxEventSize drop / cut-off, antispam threshold, meta data, source-name meta field, saved stream offsets; empty records, non-CRI lines), match-variety (match modes or / and_prefix / or_prefix / do_if / invert, metric options), file-commit (InputPlugin.Commit handed to the real file-input jobProvider.commit: labels 118 / 119), early-stop (Pipeline.Stop with events in flight, random and directed stop-while-held; feeder op 7 asks for the stop; labels 116 / 120), batch-bytes (BatchSizeBytes). spread / spread-split / spread-create (kafka-like input: UseSpread + DisableStreams). Every case is non-trivial; distinct = distinct case text.",
 		Gen:  gen, Exec: func(which int, cs hx.Sx) hx.Sx {
 			if which == 10 || which == 11 {
 				return pooldrv.RunCase(cs)
